@@ -395,7 +395,7 @@ M("c20-test-ignores-sticky", ["C20"], RR,
   "            if result:\n                if self._global:\n                    self.lastIndex = (\n                        result.index + len(result[0]) if result[0] else result.index\n                    )\n                return True\n            if self._global:\n                self.lastIndex = 0\n            return False",
   [("C20", "C20-R2", "sticky")])
 M("c20-exec-no-copy-back", ["C20"], VA,
-  "        result = self._internal.exec(string)\n        self.lastIndex = self._internal.lastIndex\n", "        result = self._internal.exec(string)\n",
+  "        result = self._internal.exec(string)\n        self._store_last_index()\n", "        result = self._internal.exec(string)\n",
   [("C20", "C20-R1", "JSRegExp.exec")])
 
 M("c01-cycle-check-removed", ["C01"], CX,
@@ -482,7 +482,12 @@ T("t-snapshot-list-ctor", ["C09"], RV,
 M("c20-copy-in-constant-for-nonglobal", ["C20"], VA,
   "        self._internal.lastIndex = self.lastIndex\n        result = self._internal.test(string)",
   "        self._internal.lastIndex = self.lastIndex if self._internal.global_ else 0\n        result = self._internal.test(string)",
-  [("C20", "C20-R1", "JSRegExp.test")])
+  [("C20", "C20-R1", "JSRegExp.test")],
+  more=[(VA, "        if self._internal._global or self._internal._sticky:\n            self.lastIndex = self._internal.lastIndex", "        self.lastIndex = self._internal.lastIndex", 1)],
+  note="a constant for non-global regexes is harmless only while the write-back is flag-guarded (see the twin below)")
+T("t-copy-in-constant-with-guarded-writeback", ["C20"], VA,
+  "        self._internal.lastIndex = self.lastIndex\n        result = self._internal.test(string)",
+  "        self._internal.lastIndex = self.lastIndex if self._internal._global or self._internal._sticky else 0\n        result = self._internal.test(string)")
 T("t-copy-in-clamped-for-global-only", ["C20"], VA,
   "        self._internal.lastIndex = self.lastIndex\n        result = self._internal.test(string)",
   "        if self._internal.global_ or self._internal.sticky:\n            self._internal.lastIndex = max(0, self.lastIndex) if self.lastIndex == self.lastIndex else 0\n        else:\n            self._internal.lastIndex = self.lastIndex\n        result = self._internal.test(string)")
@@ -724,3 +729,17 @@ M("c08-bind-does-not-flatten", ["C08"], VM,
   "                target = func._original_func\n                bound_this = func._bound_this\n                bound_args = list(func._bound_args) + bound_args\n",
   "                pass\n",
   [("C08", "C08-R9", "bind-of-bound")], note="fix 46bea00 disabled")
+M("c10-ord-of-upper", ["C10", "C04"], "src/microjs/regex/vm.py",
+  "ch_upper = _case_code(ch, ch.upper())", "ch_upper = ord(ch.upper())",
+  [("C10", "C10-R6", "ord"), ("C04", "C04-R2c", "ord")], note="fix bed597f reverted at one site")
+M("c04-parseint-any-letter", ["C04"], CX,
+  "            elif ch.isascii() and ch.isalpha():\n                digit = ord(ch.lower())", "            elif ch.isalpha():\n                digit = ord(ch.lower())",
+  [("C04", "C04-R2c", "_global_parseint")], note="fix 69320de reverted")
+M("c20-lastindex-raw-into-engine", ["C20"], VA,
+  "        return max(0, to_integer(self.get(\"lastIndex\")))", "        return self.get(\"lastIndex\") or 0",
+  [("C20", "C20-R1", "engine-receives-a-position")], note="fix dc5d38a reverted (conversion)")
+M("c20-writeback-unconditional", ["C20"], VA,
+  "        if self._internal._global or self._internal._sticky:\n            self.lastIndex = self._internal.lastIndex", "        self.lastIndex = self._internal.lastIndex",
+  [], note="unconditional write-back alone is harmless when the engine preserves lastIndex for non-global regexes (C20-R1 only objects in combination with a flag-dependent constant)")
+T("t-c20-ord-guarded-by-length", ["C04", "C10"], "src/microjs/regex/vm.py",
+  "    return ord(mapped) if len(mapped) == 1 else ord(ch)", "    if len(mapped) == 1:\n        return ord(mapped)\n    return ord(ch)")
